@@ -105,6 +105,24 @@ N = {
  "C10-c2": ("update_image breaks a lock whose recorded owner pid is gone - decided on what the lock file held earlier", "three parties: B reads the file while A holds, A releases and exits, C acquires, B's probe of A fails and B unlinks C's lock", "statement-boundary delay injection (sys.monitoring LINE events) in the updaters; 36 short histories per quick run in which updaters finish and exit while others still contend"),
  "C19-c1": ("finish_workers raises the done flag before the feeder has flushed", "slow feeder at wind-up and the failing item still in the feeder's buffer", "slow_feeder profile in the fault runs"),
  "C19-c2": ("walk dispatcher gained `finally: done_event.set()`; a sibling terminated inside Event.is_set dies holding the event's lock", "a worker failure and terminate() landing while a sibling is inside is_set()", "profile slow_isset (pause inside Event.is_set with its lock held); stuck-state rule for an owner blocked in Event.set; dead workers recognised through /proc"),
+ "C01-d1": ("dispatcher leaves the loop on a done-queue time-out when the readiness table and the ready queue are empty", "a whole generation of tiles held by the workers for more than a time-out (>= 4 workers, slow callbacks starting together)", "- (slow_workers / heavy_tail profiles)"),
+ "C01-d2": ("walk worker tests ready_queue.empty() and then does an untimed get()", "two idle workers probing the queue for the last tile within microseconds: the loser blocks for ever and the walk never returns", "stuck rule for an untimed get after the shutdown flag (get_call now records its time-out); before, the run ended by watchdog = inconclusive"),
+ "C02-d1": ("TileMerger keeps the last merged tiles in a class-level dict that outlives the cascade and is inherited by workers", "a second cascade of the same directory in the same process after leaves changed", "-"),
+ "C02-d2": ("dispatcher raises the done flag right after queueing the apex and leaves when no worker is alive", "feeder thread late by two time-outs on the apex item", "flush/shutdown profiles (slow_feeder, late_check, stall, heavy_tail) in C02's parallel cascades"),
+ "C03-d1": ("leaf-visit worker: once the flag is up, empty() then untimed get()", "flag up while leaves are queued and two workers probe the last leaf together", "untimed-get stuck rule (see C01-d2)"),
+ "C03-d2": ("fork-shared countdown `n_left.value -= 1` (locked read, separately locked write) gates the workers' exit", "two workers finishing an image at the same moment: the counter never reaches 0, workers poll for ever", "multiprocessing Value reads/writes instrumented (pause after a shared read in workers); rule 'worker keeps polling an empty queue after having seen the flag raised'"),
+ "C10-d1": ("multi-TAN/WCS workers sweep 'stale' lock files when they start", "one worker starting while a sibling holds a tile lock and a third waits for it", "profile one_late (one worker starts when the log shows its siblings at work - logical, robust under load); long updates in those runs; C10 at 8 jobs"),
+ "C10-d2": ("holder appends a line to its own lock file: filelock then treats the marker as malformed and removes it once it is 2 s old", "a holder inside the locked region for more than two wall-clock seconds while another updater polls", "two histories per quick run with a REAL 2.6 s hold (file ages cannot be dilated)"),
+ "C13-d1": ("apex chain of the TOAST sub-pyramid filter kept in a class-level set shared by all filters of a process", "two subpyramid() calls with different apexes in one process, the earlier branch enumerated first", "-"),
+ "C13-d2": ("pos_children memoised with lru_cache: every caller gets the same list object", "a caller that consumes the returned list (explicit-stack traversal), then any enumeration through that position", "the algebra cases now consume every returned list and ask again; enumeration and a leaf visit afterwards"),
+ "C14-d1": ("TileMerger remembers the level of the first children it sees and measures (averaged) pixels there instead of combining recorded ranges", "a worker whose first item is an upper-level tile (more workers than bottom parents, late starter)", "-"),
+ "C14-d2": ("cascade skips a parent whose file is newer than its children", "second cascade after a leaf was withdrawn or replaced by a file with an older timestamp", "second rounds with modifications: extreme leaf removed, leaf replaced by an older-dated file, leaf updated through update_image"),
+ "C15-d1": ("PyramidIO remembers paths whose open failed (negative cache per handle)", "handle A probes an absent tile, handle B stores it, A reads or updates it", "persistence histories run through one to three PyramidIO handles on the same directory"),
+ "C15-d2": ("fill clears only the rectangle recorded by the previous fill", "fill, update outside that rectangle, fill again - on one buffer object", "half of the buffer operations now re-use the buffer object of the previous operation (its contents are the prior state)"),
+ "C17-d1": ("reuse path parses index_rel.wtml through an lru_cache keyed by path", "reuse, override with another input, reuse - in one process", "histories with override from ANOTHER input followed by reuse"),
+ "C17-d2": ("reuse path takes the first of index*.wtml", "an absolutised index.wtml written next to index_rel.wtml (publication step) before the reuse", "history step 'absolutize' (same statements as `toasty pipeline approve`)"),
+ "C18-d1": ("all files but index.wtml sent from a thread pool whose futures are dropped", "a transfer failure on any file but the last", "-"),
+ "C18-d2": ("store writes to <item>.part opened with 'xb' and renames; no clean-up on error", "a failure during the copy inside put_item, then a re-run", "'mid' faults are now injected INSIDE the real put_item (shutil.copyfileobj dies after 7 bytes) instead of being simulated by the harness"),
 }
 
 
